@@ -15,20 +15,26 @@ OWN_FAILURES = {"TimeoutAPIError", "InvalidAuthAPIError", "BadNameAPIError", "Re
 
 
 def n_addrinfos(scn: dict) -> int:
-    n = 0
+    """Upper bound on the number of TCP connect rounds of one attempt: every round tries all remaining addresses and, when it
+    times out, drops the first address of *each family* - so it is the larger of the two per-family address counts."""
+    n4 = n6 = 0
     net = scn.get("net", {})
     for a in scn.get("client", {}).get("addresses", []):
-        lit = a[0].isdigit() and a.count(".") == 3 or ":" in a
-        if lit:
-            n += 1
+        if ":" in a:
+            n6 += 1
+            continue
+        if a[0].isdigit() and a.count(".") == 3:
+            n4 += 1
             continue
         ent = net.get("resolver", {}).get(a, net.get("resolver", {}).get("*", {}))
         res = ent.get("result")
         if isinstance(res, list):
-            n += len(res)
+            n6 += sum(1 for r in res if r[0] == 6)
+            n4 += sum(1 for r in res if r[0] != 6)
         m = net.get("mdns", {}).get(a.partition(".")[0], {})
-        n += len(m.get("v4", [])) + len(m.get("v6", []))
-    return max(1, n)
+        n4 += len(m.get("v4", []))
+        n6 += len(m.get("v6", []))
+    return max(1, n4, n6)
 
 
 def op_bound(op: Any, scn: dict) -> float | None:
@@ -162,7 +168,9 @@ def first_cause_oracle(ix: Index) -> list[Violation]:
             if not (k0 < k1 < ke):
                 continue
             err = op.err or {}
-            if err.get("cls") in OWN_FAILURES:
+            if err.get("cls") in OWN_FAILURES and not (err.get("cls") == "ConnectionNotEstablishedAPIError" and op.do in ("connect", "start", "finish")):
+                # (a connect phase that was in flight when the connection died is interrupted with that cause; "not established
+                # yet" from its next write would mean the cause got lost on the way)
                 continue
             if op.do in ("disconnect",):
                 continue
@@ -376,6 +384,17 @@ class C09(CheckBase):
                 # frame can carry): whatever becomes of it, the caller gets a classified error or its timeout
                 base["actors"].append({"id": "big", "at": {"on": "state", "match": {"new": "CONNECTED"}, "delay": pick(rng, [0.0, 0.01])}, "steps": [{"do": "request", "msgs": [["HomeAssistantStateResponse", {"entity_id": "a.b", "state": {"gen": [pick(rng, [65600, 70000, 140000]), 3]}}]], "types": ["SubscribeLogsResponse"], "stop": {"p": "never"}, "timeout": 3.0}]})
             yield base
+            if base["device"].get("transport") == "noise" and "on_handshake" not in base["device"]:
+                # the deviation sits right behind the device's handshake reply, in the same write (usually the same read):
+                # the handshake has just completed when the connection is closed - the attempt reports that first cause
+                import copy as _copy
+
+                for act in ({"raw_hex": "000003aabbcc"}, {"msgs": [{"type": 10, "payload_hex": "0aff01", "name": "#bad_payload"}]}, {"msgs": [["DisconnectRequest", {}]]}):
+                    v = _copy.deepcopy(base)
+                    v["device"]["on_handshake"] = [dict(act, latency=pick(rng, [None, 0.0]))]
+                    if rng.random() < 0.7:
+                        v.setdefault("net", {})["cuts"] = {"mode": "coalesce"}
+                    yield v
             T = run_scenario(base).turns
             causes = CAUSES if tier == "thorough" else rng.sample(CAUSES, 5)
             stride = 1 if (tier == "thorough" or T <= 40) else 2
